@@ -36,6 +36,7 @@ GROUPS = [
     ('rules_checkers', 'rule_output_checkers'),
     ('rules_checkers', 'rule_file_checkers'),
     ('rules_crash', 'rule_crash'),
+    ('rules_crash', 'rule_stale_residue'),
 ]
 
 
